@@ -8,7 +8,7 @@ from sa.absint import Evaluator, all_effects, flatten_effects
 from sa.index import AnalysisError
 from sa.teval import Unknown, teval
 from sa.terms import App, Const, Ref, Sym, cases, cat_parts, subterms
-from . import argname
+from . import argname, generic
 from .layout import DNS, class_uuid, find_effect_calls, vendor_uuid
 
 EXPLANATION = ("the three derivation sites (description encoder, MPI record, storage role table) are abstractly evaluated "
@@ -36,36 +36,36 @@ def run(ctx):
     fq = ctx.fq(fi)
     outs = ev.outcomes(fi)
     U = App("idx", (Sym("param:obj"), Const("RFC4122_UUID")))
-    rets = [o for o in outs if o.kind == "return" and any(
-        isinstance(c, App) and c.op == "in" and c.args[0] == Const("RFC4122_UUID") for c in o.conds)]
-    if len(rets) != 1:
-        raise AnalysisError(f"{fq}: RFC4122_UUID branch not recognised")
-    v = rets[0].value
-    if not (isinstance(v, App) and v.op == "call" and v.args[0] == Sym("param:cls") and len(v.args) == 2):
-        raise AnalysisError(f"{fq}: result is not cls(<bytes>)")
-    alts = _leafs(v.args[1])
     want = {
         "namespace+name": App("attr:bytes", (App("uuid5", (App("uuid5", (DNS, App("idx", (U, Const("namespace"))))),
                                                                App("idx", (U, Const("name"))))),)),
         "name only": App("attr:bytes", (App("uuid5", (DNS, App("idx", (U, Const("name"))))),)),
         "plain string": App("attr:bytes", (App("uuid5", (DNS, U)),)),
     }
+    OBJ = Sym("param:obj")
     isdict = App("isinstance", (U, Ref("builtin", "dict")))
     has_ns = App("in", (Const("namespace"), U))
-    expected_guards = {"namespace+name": {isdict: True, has_ns: True}, "name only": {isdict: True, has_ns: False},
-                       "plain string": {isdict: False}}
-    for form, term in want.items():
-        hit = [g for g, t in alts if t == term]
-        ok = bool(hit) and all(all(g.get(k) == val for k, val in expected_guards[form].items()) for g in hit)
-        # and no other alternative is selected under these guards
-        others = [t for g, t in alts if all(g.get(k, val) == val for k, val in expected_guards[form].items()) and t != term]
-        R.check("C13-D1a description forms", ok and not others, form, mod=fi.module, node=fi.node, function=fq,
-                expected=repr(term), found=f"{[repr(t)[:140] for g, t in alts]}"[:500], key_extra=form)
+    has_name = App("in", (Const("name"), U))
+    base = {App("isinstance", (OBJ, Ref("builtin", "dict"))): True, App("in", (Const("RFC4122_UUID"), OBJ)): True}
+    # case analysis over the guards, whatever the nesting / order of the tests in the code
+    forms = {"namespace+name": {isdict: True, has_name: True, has_ns: True}, "name only": {isdict: True, has_name: True, has_ns: False},
+             "plain string": {isdict: False}}
+    for form, facts in forms.items():
+        taken = generic.taken_outcomes(outs, {**base, **facts}, strict=False)
+        got = []
+        for o_ in taken:
+            if o_.kind != "return":
+                got.append(App("raises", (Const(o_.kind),)))
+                continue
+            for v in generic.select_alternatives(o_.value, {**base, **facts}):
+                got.append(v.args[1] if isinstance(v, App) and v.op == "call" and v.args[0] == Sym("param:cls") and len(v.args) == 2 else v)
+        R.check("C13-D1a description forms", bool(got) and all(g_ == want[form] for g_ in got), form, mod=fi.module, node=fi.node, function=fq,
+                expected=f"cls({want[form]!r}) whenever the description has this form", found=f"{[repr(g_)[:200] for g_ in got if g_ != want[form]][:2]}", key_extra=form)
     # the name-less dict form is rejected
-    rej = [o for o in outs if o.kind == "raise" and any(
-        isinstance(c, App) and c.op == "not in" and c.args[0] == Const("name") for c in o.conds)]
+    rej = generic.taken_outcomes(outs, {**base, isdict: True, has_name: False, has_ns: True}, strict=False) + \
+        generic.taken_outcomes(outs, {**base, isdict: True, has_name: False, has_ns: False}, strict=False)
     R.rule("C13-D1b nameless rejected", 1, "a UUID dict without name is rejected")
-    R.check("C13-D1b nameless rejected", bool(rej), "RFC4122_UUID: {namespace: …} without name", mod=fi.module, node=fi.node,
+    R.check("C13-D1b nameless rejected", bool(rej) and all(o.kind == "raise" for o in rej), "RFC4122_UUID: {namespace: …} without name", mod=fi.module, node=fi.node,
             function=fq, expected="raise ValueError", found="accepted")
 
     # ---- site 2: MPI record (fields located by C12's layout; here only the terms)
